@@ -115,6 +115,10 @@ pub fn gen_step(s: &mut Pool2, rng: &mut Rng, ctx: &mut Ctx) -> Step {
             let receiver = if rng.chance(1, 5) { Some(rng.idx(s.cfg.n_users)) } else { None };
             Op::Provide { amounts, slippage, receiver }
         }
+        1 if rng.chance(1, 8) => {
+            let coin = rng.idx(4);
+            Op::WithdrawDirect { coin, amount: *rng.pick(&[1u128, 500, 1000, 1001, 999_999]) }
+        }
         1 => {
             if lp_bal == 0 {
                 Op::Withdraw { lp: rng.range128(0, 10) }
@@ -331,7 +335,7 @@ pub fn simplify(step: &Step) -> Vec<Step> {
                 push(Op::SetFees { fees: ["0".into(), "0".into(), "0".into()] }, step.adv, step.fault);
             }
         }
-        Op::Collect => {}
+        Op::Collect | Op::WithdrawDirect { .. } => {}
     }
     out
 }
